@@ -15,6 +15,9 @@ CHECKS = {
  "C03": dict(tech="independent-decoder oracle: writer output decoded with encoding/json only and compared with the document using the harness's own specification tables; read-back identity monitor",
    text="Well-formed documents (generated graphs outside the round-trip classes; the repository's 12 real SPDX/CycloneDX SBOMs parsed by protobom, unmodified and under JSON-level mutations) are written in every registered format; each successful output is decoded without any protobom/SPDX/CycloneDX library type and checked for: every node present (exactly once when containment is a forest), every expressible relationship under its specification name, nothing invented, no dangling reference; then read back and identity attributes compared.",
    note="Trusts encoding/json and the harness's transcription of the SPDX 2.3 relationship/checksum names and the CycloneDX hash names. Writer errors are acceptable outcomes; CycloneDX 1.0/1.1 outputs are not judged.", ref="DESIGN.md §5 C03"),
+ "C04": dict(tech="crash/exit/hang monitors in supervised child processes + return-shape predicate + logical cost monitor over exhaustive single-fault and sampled double-fault JSON mutations",
+   text="Every single schema fault at every JSON path of four hand-written representative documents, sampled (thorough: 1.2 M) double faults, truncations, token soups, 10 000-deep nesting and size series are pushed through SniffReader, ParseStream and ParseStreamWithOptions for all 7 registered formats inside supervised children: recover() reports panics with the panicking function as signature, a dead child is attributed to the case logged before it ran, the return-shape predicate is checked on every call, and growth exponents of allocated bytes decide the polynomial-time clause (a CPU/heap watchdog, never wall time, decides hangs).",
+   note="'All byte strings' is sampled; exhaustive only over the single-fault space of the representative documents. Known finding cdx-license-expression-exponential (keyed by the licences path) is confirmed on every run.", ref="DESIGN.md §5 C04"),
  "C08": dict(tech="invariant monitor (well-formed / normalised) after every step of exhaustive small-universe and random operation programs",
    text="Runtime invariant monitoring: every result of every editing operation is checked for well-formedness (and normalisation where the statement requires it), RemoveNodes against its exact set model. All 4301 well-formed lists on <=3 ids are enumerated as receivers (thorough: against all 4301 arguments), plus random operation histories whose results re-enter the pool. Decides the property for the executions produced; exhaustive only on the enumerated universe.",
    note="Trusts the harness's own WF/normalised predicates and protobuf reflection (proto.Clone). Operands are well-formed by construction and re-checked before each step.", ref="DESIGN.md §5 C08"),
